@@ -648,6 +648,19 @@ var c14Scaled = []struct {
 		}
 		return append(b, 0x90, 'Z')
 	}},
+	{"a class name of 2k dotted parts ending in a registered simple name, and k/2 instances", func(k int) []byte {
+		n := 4*k + 5
+		b := append([]byte{0x57, 'C', 'S'}, byte(n>>8), byte(n))
+		for i := 0; i < 2*k; i++ {
+			b = append(b, byte('a'+i%26), []byte{'.', '$'}[i%2])
+		}
+		b = append(b, "Inner"...)
+		b = append(b, 0x91, 0x01, 'a')
+		for i := 0; i < k/2; i++ {
+			b = append(b, 0x60, 0x90)
+		}
+		return append(b, 'Z')
+	}},
 	{"one unknown field name of k characters and k instances", func(k int) []byte {
 		b := append([]byte{'C', 0x05, 'I', 'n', 'n', 'e', 'r', 0x91, 'S'}, byte(k>>8), byte(k))
 		for i := 0; i < k; i++ {
